@@ -11,7 +11,8 @@
 (*  k = "wire"  configured advertised startup after op flags wire haslog   *)
 (*              logical   a frame captured on a real connection: startup = *)
 (*              COMPRESSION option of this connection's STARTUP ("" none), *)
-(*              after = the frame follows STARTUP                          *)
+(*              after = the frame follows STARTUP; plainok = an OPTIONS    *)
+(*              body is empty / a STARTUP body parses as a string map      *)
 (*  k = "resp"  negotiated flag body outcome   what the caller got for a   *)
 (*              response frame ("value" | "error" | "crash" | "hang")      *)
 (* A mismatch prints MONVIOL with the failing aspects; kinds starting with *)
@@ -55,6 +56,7 @@ Kinds(r) ==
                   \o chk(r.startup = StartupCompressionExpected(r.configured, adv), "drift-startup-compression-unexpected")
              ELSE <<>>)
             \o chk(~Flag(r) \/ FlagAllowed(neg, r.op), "flag-without-negotiation")
+            \o chk(r.op \notin {OpOptions, OpStartup} \/ r.plainok, "options-or-startup-body-not-plain")
             \o (IF r.haslog THEN chk(WireBodyOK(Flag(r), neg, r.wire, r.logical),
                                      IF Flag(r) THEN "flagged-body-not-compressed-form" ELSE "unflagged-body-not-plain")
                 ELSE chk(~Flag(r) \/ neg = "" \/ RefDecode(neg, r.wire, FALSE) # Err, "flagged-body-not-compressed-form"))
